@@ -443,7 +443,7 @@ cgsisx(superlu_options_t *options, SuperMatrix *A, int *perm_c, int *perm_r,
     notran = (options->Trans == NOTRANS);
     mc64 = (options->RowPerm == LargeDiag_MC64);
     if ( nofact ) {
-	*(unsigned char *)equed = 'N';
+	if ( lwork != -1 ) *(unsigned char *)equed = 'N';
 	rowequ = FALSE;
 	colequ = FALSE;
     } else {
@@ -509,6 +509,21 @@ cgsisx(superlu_options_t *options, SuperMatrix *A, int *perm_c, int *perm_r,
     if (*info != 0) {
 	int ii = -(*info);
 	input_error("cgsisx", &ii);
+	return;
+    }
+
+    if ( nofact && lwork == -1 ) {
+	/* Size query: report the estimate in info / mem_usage and leave
+	   every other argument as it is. */
+	int    *iwork0;
+	singlecomplex *dwork0;
+	int_t  annz = (A->Stype == SLU_NR) ? ((NRformat *) A->Store)->nnz
+	                                   : ((NCformat *) A->Store)->nnz;
+	*info = cLUMemInit(options->Fact, work, lwork, A->nrow, A->ncol, annz,
+			   sp_ienv(1), options->ILU_FillFactor, L, U, Glu, &iwork0, &dwork0);
+	SUPERLU_FREE(Glu->expanders);
+	Glu->expanders = NULL;
+	mem_usage->total_needed = *info - A->ncol;
 	return;
     }
 
